@@ -63,7 +63,7 @@ def classes():
         if FAULTS.get('td_slow'):
           time.sleep(0.15)         # a wind-down that takes longer than cancel_timeout_s
         if FAULTS.get('td_slow_others') and FAULTS.get('td_hang') != name:
-          time.sleep(0.1)          # takes a while, but well within its own plug_teardown_timeout_s (0.25 s)
+          time.sleep(0.1)          # takes a while, but well within its own plug_teardown_timeout_s (0.5 s)
         if FAULTS.get('td_block') == name:
           # blocks where the asynchronous termination request cannot reach it (a C-level wait), until the framework
           # moves on to the next tearDown / the output callback -- or gives up waiting for that after 3 s
@@ -223,7 +223,7 @@ def run_case(case):
     FAULTS['td_slow'] = True
     conf.load(cancel_timeout_s=0.02)
   if kind == 'td_hang+slow':
-    conf.load(plug_teardown_timeout_s=0.25)
+    conf.load(plug_teardown_timeout_s=0.5)
   if kind in ('td_hang', 'td_block', 'td_hang+ctor'):
     conf.load(plug_teardown_timeout_s=0.03)
   try:
@@ -309,7 +309,7 @@ def check(case, out):
     # the time limit is per plug: a tearDown that needs 0.1 s is never cut short because another plug used up its own limit
     for e in log:
       if e[0] == 'teardown' and e[1] != arg and not any(x[0] == 'teardown-end' and x[1] == e[1] and x[2] == e[2] for x in log):
-        bad.append(('teardown-cut-short', 'tearDown of %s (0.1 s of work, limit 0.25 s per plug) did not finish: it was abandoned '
+        bad.append(('teardown-cut-short', 'tearDown of %s (0.1 s of work, limit 0.5 s per plug) did not finish: it was abandoned '
                     'together with the hanging tearDown of %s' % (e[1], arg)))
   for e in log:
     if e[0] == 'hang-not-abandoned':
